@@ -77,7 +77,7 @@ def main():
         "setup_cmd": "cd lean && lake build SelfiesVerif selfies_model $(/venv/bin/python ../harness/list_prop_modules.py)",
         "hooks": {
             "guard": "SELFIES_VERIF",
-            "enable": "no hooks are needed: the harness reaches caches and module globals from outside (recording set injected into selfies.utils.matching_utils)",
+            "enable": "no hooks are needed: the harness reaches caches and module globals from outside (a recording set injected into selfies.utils.matching_utils for the matcher's set.pop() choices; a spy on the module-level name mol_to_smiles of selfies.decoder to capture the graph the real decoder() builds) - run-time monkey-patching from the harness process only, no change to the library",
             "baseline_off_cmd": "cd /repo && /venv/bin/python -m pytest -ra -q -p no:cacheprovider --timeout=900 --continue-on-collection-errors",
             "source_commits": [],
             "add_only": True,
